@@ -3,6 +3,8 @@
    trimming or the oracle finds a match in the trimmed text. *)
 From BW Require Import SpecKeys.
 From BWP Require Import TextFacts Keys_proofs.
+From BW Require Import Validators.
+From BWP Require Import Keys2_proofs.
 
 Theorem C08_no_violation_iff : forall o pat idx ls,
   lp_scan o pat idx ls = Ok None <-> Forall (lp_passes o pat) ls.
@@ -22,3 +24,25 @@ Print Assumptions C08_violation_is_first.
 Theorem C08_at_most_one : forall o file b ds, line_pattern o file b = Ok ds -> (length ds <= 1)%nat.
 Proof. exact line_pattern_at_most_one. Qed.
 Print Assumptions C08_at_most_one.
+
+(* At validator level: no diagnostic iff every non-blank trimmed line has a match. *)
+Theorem C08_validator_ok_iff_all_match o file b pat content :
+  get_attr (T "line-pattern") (b_attrs b) = Some pat ->
+  o_rx_ok o pat = Some true ->
+  content_of file b = Ok content ->
+  (line_pattern o file b = Ok [] <-> Forall (lp_passes o pat) (lines content)).
+Proof. exact (line_pattern_ok_iff o file b pat content). Qed.
+Print Assumptions C08_validator_ok_iff_all_match.
+
+(* Otherwise the one diagnostic designates the first failing line, trimmed, at its own byte range. *)
+Theorem C08_validator_reports_first_failing o file b pat content pre l post :
+  get_attr (T "line-pattern") (b_attrs b) = Some pat ->
+  o_rx_ok o pat = Some true ->
+  content_of file b = Ok content ->
+  lines content = pre ++ l :: post ->
+  Forall (lp_passes o pat) pre -> lp_fails o pat l ->
+  line_pattern o file b =
+  (let? sev := sev_of (b_attrs b) in
+   Ok [key_diag b (trim_key (N.of_nat (length pre)) l) V_PATTERN sev [pat]]).
+Proof. exact (line_pattern_first_fail o file b pat content pre l post). Qed.
+Print Assumptions C08_validator_reports_first_failing.
